@@ -94,6 +94,9 @@ impl Engine for Pq {
                         } else {
                             lines.push(a.clone());
                         }
+                        if indexed {
+                            lines.push("raw".into());
+                        }
                     }
                     if n_ins == 0 {
                         continue;
@@ -104,6 +107,9 @@ impl Engine for Pq {
                     }
                     for _ in 0..=n_ins {
                         lines.push("pull".into());
+                        if indexed {
+                            lines.push("raw".into());
+                        }
                     }
                     out.push(Case { lines });
                 }
@@ -131,7 +137,13 @@ impl Engine for Pq {
         let mut shadow = VIndexedPriorityQueue::new();
         let mut issued: Vec<(usize, u64)> = Vec::new();
         let mut val = 1u64;
+        // the layout of the heap array and of the slab is compared after every operation of a short case and
+        // after one operation in 16 of a long one
+        let raw_every = len <= 120;
         for _ in 0..len {
+            if indexed && lines.len() > 1 && (raw_every || rng.chance(1, 16)) {
+                lines.push("raw".into());
+            }
             match rng.weighted(&[wi, wp, 1, we, if indexed { 1 } else { 0 }]) {
                 0 => {
                     let k = rng.below(nkeys);
@@ -172,6 +184,9 @@ impl Engine for Pq {
         let n = if indexed { shadow.len() + 1 } else { val as usize };
         for _ in 0..n.min(20000) {
             lines.push("pull".into());
+            if indexed && (n <= 60 || rng.chance(1, 16)) {
+                lines.push("raw".into());
+            }
         }
         Case { lines }
     }
@@ -237,6 +252,7 @@ impl Engine for Pq {
                     Some(k) => format!("some {k}"),
                 },
                 (["len"], St::Ipq(q)) => format!("len {}", q.len()),
+                (["raw"], St::Ipq(q)) => q.raw(),
                 (["ext", i, e], St::Ipq(q)) => {
                     let r = q.extract(i.parse().unwrap(), e.parse().unwrap());
                     if let Some((k, _)) = r {
